@@ -47,6 +47,11 @@ def replay_main(args):
         mod = load(args.prop)
         with open(args.replay) as f:
             body = json.load(f)
+        if args.shrink and isinstance(body["case"].get("ops"), list):
+            body["case"] = shrink_ops(mod, args.prop, body)
+            print("SHRUNK ops:")
+            for op in body["case"]["ops"]:
+                print("   ", json.dumps(op))
         ctx = core.Ctx(args.prop, body.get("tier", "quick"), body.get("seed", 0), replay=True)
         ctx._case = body["case"]
         try:
@@ -72,6 +77,40 @@ def replay_main(args):
         import shutil
 
         shutil.rmtree(home, ignore_errors=True)
+
+
+def _keys_of(mod, prop, body, case):
+    ctx = core.Ctx(prop, body.get("tier", "quick"), body.get("seed", 0), replay=True)
+    ctx._case = case
+    try:
+        mod.run_case(ctx, case)
+    except Exception:
+        return set()
+    finally:
+        ctx.cleanup()
+    return {v["key"] for v in ctx.violations}
+
+
+def shrink_ops(mod, prop, body):
+    """Greedy step deletion keeping the violation key."""
+    import copy
+
+    case = copy.deepcopy(body["case"])
+    key = body["key"]
+    if key not in _keys_of(mod, prop, body, case):
+        return case
+    changed = True
+    while changed:
+        changed = False
+        i = len(case["ops"]) - 1
+        while i >= 0:
+            trial = copy.deepcopy(case)
+            del trial["ops"][i]
+            if key in _keys_of(mod, prop, body, trial):
+                case = trial
+                changed = True
+            i -= 1
+    return case
 
 
 def parent_main(args):
@@ -156,6 +195,7 @@ def main(argv=None):
     ap.add_argument("--jobs", type=int, default=0)
     ap.add_argument("--time-cap", type=float, default=0)
     ap.add_argument("--replay")
+    ap.add_argument("--shrink", action="store_true")
     args = ap.parse_args(argv)
     args.prop = args.prop.upper()
     if args.replay:
